@@ -328,6 +328,7 @@ def bad_values(t, rnd):
                 out += [("over-capacity", "y" * n) for n in sorted({t["capn"] + 1, t["cap"], t["cap"] + 3})]
     elif k == "stringn":
         out += [("bad-char-size", ("abc", 3)), ("bad-char-size", ("abc", 0)), ("int-for-str", (5, 1)),
+                ("bytes-for-str", (b"ab", 1)), ("list-for-str", (["a", "b"], 1)), ("tuple-for-str", (("a",), 2)), ("dict-for-str", ({"a": 1}, 1)),
                 ("unencodable-char", ("a\ud800", 2))]
     elif k == "bits":
         n = 8 * t["w"]
